@@ -18,6 +18,7 @@ RULE = (
     "one message forwarded in each direction. Spec oracle: per direction the forwarded messages are exactly the received "
     "ones, unchanged (client identity prefixed by ROUTER on the way in, stripped on the way out), in order; the capture "
     "got one copy of each; replies reach the client named in their envelope only."
+    " Family frame-size: requests and replies whose frames have the boundary sizes of the ZMTP frame header (0, 1, 254, 255, 256, 257, 65535, 65536 bytes) go through the proxy chain; the bytes on the other side's wire are the RFC encoding of the same frames."
 )
 ASSUMPTIONS = ["when a send blocks while both sides are ready, which direction is half-done is select!'s random choice: such schedules are not compared"]
 TRUSTED = ["futures::select! picks among READY branches only and drops the losing futures"]
@@ -185,6 +186,16 @@ def cases(tier, rng):
         for shape in SHAPES:
             out.append(reconnect_case(variant, shape, n))
             n += 1
+    # frame sizes at the boundaries of the wire format (one-byte size up to 255, eight-byte size from 256; the 8 KiB read size;
+    # 64 KiB): forwarded unchanged in both directions, copied unchanged to the capture
+    for size in ([0, 1, 254, 255, 256, 257, 8191, 8192, 8193, 65535, 65536] if tier == "quick" else
+                 [0, 1, 254, 255, 256, 257, 511, 512, 8191, 8192, 8193, 16384, 65535, 65536, 65537, 131072, 200000]):
+        for cap in (None, "PUSH"):
+            body = bytes((65 + (i * 7 + size) % 26) for i in range(size))
+            c = build(1, 1, [("c", 1), ("w", 1)], [body], cap, False, n, "frame-size")
+            c.expect = ("frame-size", body)
+            out.append(c)
+            n += 1
     for nc, nw in [(1, 1), (2, 1), (1, 2), (2, 2)]:
         evs = [("c", i) for i in range(1, nc + 1)] + [("w", j) for j in range(1, nw + 1)]
         for events in itertools.product(evs, repeat=3):
@@ -246,6 +257,20 @@ def oracle(case, lines):
         return reconnect_oracle(case, lines)
     if case.expect[0] == "no-worker":
         return no_worker_oracle(case, lines)
+    if case.expect[0] == "frame-size":
+        body = case.expect[1]
+        res = list(zip(case.ops, lines[1:]))
+        w11 = [l for op, l in res if op == "wire 11" and l != "wire ."]
+        w1 = [l for op, l in res if op == "wire 1" and l != "wire ."]
+        want_back = "wire " + wg.show_wire([[b"c1", b"", b"q1", body]])
+        want_front = "wire " + wg.show_wire([[b"", b"r2", body]])
+        if want_back not in w11:
+            return (f"a request with a {len(body)}-byte frame was not forwarded unchanged to the worker: {[x[:70] for x in w11[1:]]} "
+                    f"(want {want_back[:70]})")
+        if want_front not in w1:
+            return (f"a reply with a {len(body)}-byte frame was not forwarded unchanged to the client: {[x[:70] for x in w1[1:]]} "
+                    f"(want {want_front[:70]})")
+        return None
     nc, nw, exp_back, exp_front, all_fwd, has_cap = case.expect
     res = list(zip(case.ops, lines[1:]))
     if any(op.startswith("poll") and l.startswith("ready") for op, l in res[-(nc + nw + 4):]):
@@ -310,7 +335,7 @@ def oracle(case, lines):
 
 def nontrivial(case, lines):
     e = case.expect
-    if e and e[0] in ("reconnect", "no-worker"):
+    if e and e[0] in ("reconnect", "no-worker", "frame-size"):
         return any(l.startswith("wire ") and l != "wire ." for l in lines)
     return bool(e and e[2] and e[3])
 
